@@ -94,6 +94,13 @@ def plan(tier, seed):
                 if s[2] != 1:
                     continue
             P.append({'fam': fam, 'changes': ch})
+        if s == [6, 2, 1] and (fam['econ'] == 3 or tier == 'thorough'):
+            al = dict(MISC)
+            for k, v in PRICE.items():
+                if ('Electricity' in k and fam['enduse'] != 2) or ('Heat' in k and fam['enduse'] != 1):
+                    al[k] = v
+            for ch in e1.deviations(al, 1):
+                P.append({'fam': fam, 'changes': ch})
     return P
 
 
